@@ -15,7 +15,7 @@ from harness import common, nnd_corr
 from harness.common import INF_KEY, fmt
 
 COQ_FILES = ["model/Base.v", "model/Heap.v", "model/Rng.v", "model/NND.v", "proofs/ListAux.v", "proofs/HeapProofs.v",
-             "proofs/HeapTopK.v", "proofs/HeapArrays.v", "proofs/NNDProofs.v", "proofs/C13Proofs.v"]
+             "proofs/HeapTopK.v", "proofs/HeapArrays.v", "proofs/NNDProofs.v", "proofs/C13Proofs.v", "proofs/C13Loop.v"]
 SENTINELS = {"pynndescent/utils.py": ["checked_flagged_heap_push", "initalize_heap_from_graph_indices",
                                       "initalize_heap_from_graph_indices_and_distances", "apply_graph_updates_low_memory",
                                       "apply_graph_updates_high_memory"],
